@@ -1,36 +1,40 @@
 import Girc.Spec.SplitSpec
 import Girc.Spec.FormatSpec
+import Girc.Proofs.SplitJoin
+import Girc.Proofs.SplitEvent
+import Girc.Proofs.SplitFits
+import Girc.Proofs.SplitContent
 namespace Girc.Proofs.Split
 open Girc Girc.Model Girc.Spec
 
 /-- No empty piece is ever returned (for every text, width and oracle). -/
 theorem split_no_empty (isURL : Bytes → Bool) (t : Bytes) (w : Nat) :
     ∀ p ∈ splitMessage isURL t w, p ≠ [] := by
-  sorry
+  exact SplitFits.split_no_empty isURL t w
 
 /-- Plain text, any width ≥ 4 (one UTF-8 character always fits): every piece is at most `w` BYTES. -/
 theorem split_fits (isURL : Bytes → Bool) (t : Bytes) (w : Nat) (hp : plainText t = true) (hw : 4 ≤ w) :
     ∀ p ∈ splitMessage isURL t w, p.length ≤ w := by
-  sorry
+  exact SplitFits.split_fits isURL t w hp hw
 
 /-- Plain text: the pieces' words, in order, are the original words, an over-long word possibly cut
     into consecutive chunks — for every oracle `isURL` and every width ≥ 4. (This also shows the
     recursion never runs out of fuel: lost fuel would lose content.) -/
 theorem split_content (isURL : Bytes → Bool) (t : Bytes) (w : Nat) (hp : plainText t = true) (hw : 4 ≤ w) :
     Refines (pieceWords (splitMessage isURL t w)) (wordsOf t) := by
-  sorry
+  exact SplitContent.split_content isURL t w hp hw
 
 /-- Every piece of a split event keeps the command, the leading parameters, the source and the tags. -/
 theorem evsplit_header (isURL : Bytes → Bool) (e : Event) (maxLength : Int) :
     ∀ p ∈ eventSplit isURL e maxLength, p.command = e.command ∧ p.source = e.source ∧ p.tags = e.tags ∧
       p.params.dropLast = e.params.dropLast ∧ p.params.length = e.params.length := by
-  sorry
+  exact SplitEvent.evsplit_header isURL e maxLength
 
 /-- A split CTCP message (ACTION …) keeps its wrapping on every piece. -/
 theorem evsplit_ctcp (isURL : Bytes → Bool) (e : Event) (maxLength : Int) (c : CTCPEvent)
     (hc : decodeCTCP e = some c) (hsplit : eventSplit isURL e maxLength ≠ [e]) :
     ∀ p ∈ eventSplit isURL e maxLength, ∃ piece, p.params.getLastD [] = [ctcpDelim] ++ c.command ++ [SP] ++ piece ++ [ctcpDelim] := by
-  sorry
+  exact SplitEvent.evsplit_ctcp isURL e maxLength c hc hsplit
 
 /-- Plain text (not CTCP) and room for at least 4 bytes of text: every piece, serialised without its
     source as the server limit is computed, is at most `maxLength` bytes. -/
@@ -39,21 +43,24 @@ theorem evsplit_fits (isURL : Bytes → Bool) (e : Event) (maxLength : Int)
     (hp : plainText (e.params.getLastD []) = true) (hnc : decodeCTCP e = none)
     (hroom : (eventLen { e with source := none, params := e.params.dropLast ++ [[]] } : Int) + 4 ≤ maxLength) :
     ∀ p ∈ eventSplit isURL e maxLength, p = e ∨ (eventLen { p with source := none } : Int) ≤ maxLength := by
-  sorry
+  have _ := hcmd
+  have _ := hne
+  exact SplitEvent.evsplit_fits_of isURL e maxLength
+    (fun w hw => SplitFits.split_fits isURL _ w hp hw) hnc hroom
 
 /-- Join / List: every given channel is sent exactly once, in order … -/
 theorem join_all_once (max : Int) (chans : List Bytes) (h : ∀ c ∈ chans, c ≠ [] ∧ 0x2C ∉ c) :
     (joinBatches max chans).flatMap (splitOnByte 0x2C) = chans := by
-  sorry
+  exact SplitJoin.join_all_once max chans h
 
 /-- … in batches that fit, unless a single channel alone is too long. -/
 theorem join_batches_fit (max : Int) (chans : List Bytes) :
     ∀ b ∈ joinBatches max chans, (b.length : Int) ≤ max ∨ b ∈ chans := by
-  sorry
+  exact SplitJoin.join_batches_fit max chans
 
 /-- MaxEventLength with the defaults: 512 − CRLF − (4 + 30 + 18 + 63) = 395. -/
 theorem max_event_length_default (cfg : Cfg) : maxEventLength cfg {} = 512 - 2 - (4 + 30 + 18 + 63) := by
-  sorry
+  exact SplitJoin.max_event_length_default cfg
 
 /-- After an ISUPPORT line: the advertised LINELEN minus CRLF, and the prefix estimate from
     NICKLEN/MAXNICKLEN (NICKLEN as given, MAXNICKLEN only if larger), USERLEN/HOSTLEN (only if larger than
@@ -68,6 +75,6 @@ theorem isupport_lengths (st : St) (e : Event) (h1 : isSuffixOfB sThisServer e.l
     let host : Int := match oi sHOSTLEN with | some t => if t > 63 then t else 63 | none => 63
     (handleISUPPORT st e).maxLineLength = (match oi sLINELEN with | some t => t - 2 | none => st.maxLineLength) ∧
     (handleISUPPORT st e).maxPrefixLength = (if 4 + nick + user + host ≥ line then st.maxPrefixLength else 4 + nick + user + host) := by
-  sorry
+  exact SplitJoin.isupport_lengths st e h1 h2
 
 end Girc.Proofs.Split
